@@ -296,7 +296,9 @@ pub fn run(tier: &str, out_path: &str) -> Value {
             if quick && own_ka.is_some() && ![120u32, 300, 65535].contains(&own_to) {
                 continue;
             }
-            let step = if own_ka.is_some() && !quick { 7 } else { 1 };
+            // thorough tier: every third advertised value without an own keepalive, every 31st with one (Interval.tla
+            // covers all 65536 x the grid exhaustively at design level; one case costs about 40 ms of a real node pair)
+            let step = if quick { 1 } else if own_ka.is_some() { 31 } else { 3 };
             for (k, a) in adv_values.iter().enumerate() {
                 if k % step == 0 {
                     jobs.push(Job::Interval(own_to, own_ka, vec![*a]));
